@@ -2,6 +2,7 @@ import Holpy.C09.Model
 import Holpy.C09.Proofs
 import Holpy.C09.ProofsAbs
 import Holpy.C09.ProofsAbsSound
+import Holpy.C09.ProofsSem3
 /-
 C09 — property theorems (statements only; helper lemmas and the specification vocabulary
 `Ext`, `Below`, `isFO`, `SigmaOK`, `applyInst` are in Proofs.lean).
@@ -11,6 +12,7 @@ All theorems are for an arbitrary recursion fuel `fuel` and beta-normalisation f
 steps of `Term.subst` after its first loop; the first loop only re-derives type bindings that the
 fixed matcher has already recorded, so it is not needed here).
 -/
+set_option linter.defProp false
 namespace Holpy.C09
 open Holpy
 
@@ -75,8 +77,8 @@ theorem fo_match_sound (bf fuel : Nat) (pat t : Term) (inst inst' : MInst) (hfo 
 example : isFO Ex.pat = true ∧ firstOrderMatch 10 10 Ex.pat Ex.tgt Ex.seed = .ok Ex.res := ⟨rfl, rfl⟩
 
 /-- `fo_match_sound` for `first_order_match_list` (binder-free first-order patterns), in either
-processing order.  PARTIAL in the same sense as `match_sound_partial` below. -/
-theorem match_list_sound_partial (bf fuel : Nat) (pats ts : List Term) (inst inst' : MInst)
+processing order.  Syntactic (alpha-equality) form; the semantic theorem for all patterns is `match_sound_sem`. -/
+theorem fo_match_list_sound (bf fuel : Nat) (pats ts : List Term) (inst inst' : MInst)
     (hfo : ∀ p ∈ pats, isFO p = true)
     (h : firstOrderMatchList bf fuel pats ts inst = .ok inst') :
     ∀ pt ∈ pats.zip ts, ∃ r,
@@ -124,8 +126,8 @@ def matchB : firstOrderMatch 10 10 patB tgtB MInst.empty = .ok resB := by
   simp only [patB, tgtB, resB, plus, a, b, nat]; model_simp
 end Ex
 
-/-- SOUNDNESS, PARTIAL form of `match_sound` (what is proved over the model of "a successful match
-instantiates the pattern to the target"): for a closed first-order pattern with binders (`isFOB`), a
+/-- SOUNDNESS, syntactic form for the first-order class with binders (alpha-equality; the theorem
+for ALL patterns, modulo beta-eta in semantic form, is `match_sound_sem`): for a closed first-order pattern with binders (`isFOB`), a
 closed target that has an abstraction wherever the pattern has one (`absAligned`) and whose type
 annotations contain no schematic type variables (`tStable`), and a seed whose values are closed and
 whose type bindings are free of schematic type variables: if matching succeeds, the pattern
@@ -136,7 +138,7 @@ Miller-pattern branch, the heuristic branch and the already-instantiated-head br
 holds only modulo beta-eta; (2) a target that is not an abstraction where the pattern is one — the
 matcher eta-expands the target and the result is eta-equal, not alpha-equal; (3) targets containing
 schematic type variables (outside the matcher's documented domain; there it is unsound). -/
-theorem match_sound_partial (bf fuel : Nat) (pat t : Term) (inst inst' : MInst) (hfo : isFOB pat = true)
+theorem fo_match_sound_binders (bf fuel : Nat) (pat t : Term) (inst inst' : MInst) (hfo : isFOB pat = true)
     (hcp : Term.isOpenAt 0 pat = false) (hct : Term.isOpenAt 0 t = false) (hal : absAligned pat t = true)
     (hts : tStable t) (hst : TyInstStable inst.tyinst) (hcl : SvClosed inst)
     (h : firstOrderMatch bf fuel pat t inst = .ok inst') :
@@ -183,8 +185,74 @@ example : isFOB Ex.patB = true ∧ Term.isOpenAt 0 Ex.patB = false ∧ termSize 
      · simp at h,
    by simp only [Ex.patB, Ex.resB, Ex.plus, Ex.a, Ex.b, Ex.nat]; model_simp,
    Ex.tgtB_stable,
-   match_sound_partial 10 10 Ex.patB Ex.tgtB MInst.empty Ex.resB rfl rfl rfl rfl Ex.tgtB_stable
+   fo_match_sound_binders 10 10 Ex.patB Ex.tgtB MInst.empty Ex.resB rfl rfl rfl rfl Ex.tgtB_stable
      (fun _ _ h => by simp [MInst.empty] at h) (fun _ _ h => by simp [MInst.empty] at h) Ex.matchB⟩
+
+
+/-! ### soundness of the WHOLE matcher, modulo beta-eta, in semantic form -/
+
+namespace Ex
+/-- `%u. ?F u` (a Miller pattern under a binder) against `%v. p v` -/
+def patM : Term := .abs "u" nat (.comb (.svar "F" (Ty.fn nat nat)) (.bound 0))
+def tgtM : Term := .abs "v" nat (.comb p (.bound 0))
+def resM : MInst := ⟨[], [("F", p)], [], [("u", "v")]⟩
+def DM : List (String × Ty) := [("F", Ty.fn nat nat)]
+def natOK : TyOK nat := ⟨natStable, rfl⟩
+def tgtM_ok : TgtOK tgtM := ⟨⟨Ty.fn nat nat, rfl⟩, ⟨natOK, ⟨TyOK.fn natOK natOK, trivial⟩⟩, rfl⟩
+def matchM : firstOrderMatch 10 10 patM tgtM MInst.empty = .ok resM := by
+  simp only [patM, tgtM, resM, p, nat]; model_simp
+end Ex
+
+/-- SOUNDNESS OF THE WHOLE MATCHER (every branch: first-order, binders, Miller patterns with the
+eta-contracting shortcuts of the abstraction loop, heuristic branch, already-instantiated head with
+beta-normalisation, eta-expansion of the target), modulo beta-eta, stated semantically: if
+`first_order_match pat t inst` succeeds with `inst'`, then in EVERY finite standard model `M`
+(Kernel/Sem.lean) and every admissible valuation `ρ` the instantiated pattern `r` (the result of
+`subst_type` + the replacement of `Term.subst`) has the lax type and the denotation of the target.
+`sem` identifies beta- and eta-equal terms, so this is "equal up to beta-eta".  Hypotheses: the
+schematic variables of the pattern are used at their declared types `D` (`PatInS`); the target is
+closed, well-typed, without schematic (type) variables and with genuine binary function types
+(`TgtOK`); the seed satisfies the same conditions (`HInv`: closed well-typed instances of the
+declared types — the empty seed does, `HInv.empty`); the instantiated pattern is well-typed. -/
+theorem match_sound_sem (D : List (String × Ty)) (bf fuel : Nat) (pat t : Term) (inst inst' : MInst)
+    (hD : PatInS D inst.tyinst pat) (ht : TgtOK t) (hseed : HInv D [] inst)
+    (h : firstOrderMatch bf fuel pat t inst = .ok inst')
+    (hwt : ∃ S, Term.checkedGetType [] (Term.substType inst'.tyinst pat) = .ok S)
+    (r : Term) (hr : Term.substRec ⟨inst'.tyinst, inst'.svars, []⟩ (Term.substType inst'.tyinst pat) = .ok r)
+    (M : Model) (ρ : Valuation) (hρ : Admissible M ρ) :
+    Term.getType [] r = Term.getType [] t ∧ sem M ρ [] [] r = sem M ρ [] [] t :=
+  match_sound_sem_aux D bf fuel pat t inst inst' hD ht hseed h hwt r hr M ρ hρ
+
+example : PatInS Ex.DM MInst.empty.tyinst Ex.patM ∧ TgtOK Ex.tgtM ∧ HInv Ex.DM [] MInst.empty ∧
+    firstOrderMatch 10 10 Ex.patM Ex.tgtM MInst.empty = .ok Ex.resM ∧
+    (∃ S, Term.checkedGetType [] (Term.substType Ex.resM.tyinst Ex.patM) = .ok S) ∧
+    Term.substRec ⟨Ex.resM.tyinst, Ex.resM.svars, []⟩ (Term.substType Ex.resM.tyinst Ex.patM)
+      = .ok (.abs "u" Ex.nat (.comb Ex.p (.bound 0))) :=
+  ⟨⟨⟨Ty.fn Ex.nat Ex.nat, rfl, fun _ _ => rfl⟩, trivial⟩, Ex.tgtM_ok, HInv.empty _, Ex.matchM,
+   ⟨Ty.fn Ex.nat Ex.nat, by simp [Ex.patM, Ex.resM, Ex.nat, Ex.p, Term.substType, Ty.subst, Ty.fn, Term.checkedGetType,
+      bind, Except.bind, Ty.isFun, Ty.domain?, Ty.range?]⟩,
+   by simp [Ex.patM, Ex.resM, Ex.nat, Ex.p, Term.substType, Ty.subst, Ty.fn, Term.substRec, bind, Except.bind]⟩
+
+/-- The Miller-pattern branch by itself (`?f x1 … xn`, head not yet instantiated, arguments distinct
+stand-ins of bound variables or instantiated schematic variables, every bound variable of the target
+among them): the instantiation `?f := %x1 … xn. t` computed by the abstraction loop (`abstract_over`
+with its eta-contracting shortcuts and the operator table) satisfies the invariant and makes the
+pattern denote what the target denotes (`ConclSem`: same lax type, same `sem` in every model under
+every valuation that satisfies the instantiation). -/
+theorem miller_match_sound_sem (D : List (String × Ty)) (bd : List Term) (i i' : MInst) (hn : String) (hT : Ty)
+    (p t : Term) (hhead : headOf p = .svar hn hT) (hl : i.svars.lookup hn = none)
+    (hnh : needsHeuristic bd i (argsOf p) t = false) (hp : PatInS D i.tyinst p) (ht : TgtOK t)
+    (hinv : HInv D bd i) (hbd : BdOK bd) (h : matchMiller bd i hn hT (argsOf p) t = .ok i') :
+    HInv D bd i' ∧ ConclSem i' p t :=
+  matchMiller_sem hhead hl hnh hp ht hinv hbd h
+
+example : headOf (.comb (.svar "F" (Ty.fn Ex.nat Ex.nat)) (.var "u" Ex.nat)) = .svar "F" (Ty.fn Ex.nat Ex.nat) ∧
+    needsHeuristic [.var "u" Ex.nat] MInst.empty (argsOf (.comb (.svar "F" (Ty.fn Ex.nat Ex.nat)) (.var "u" Ex.nat)))
+      (.comb Ex.p (.var "u" Ex.nat)) = false ∧
+    matchMiller [.var "u" Ex.nat] MInst.empty "F" (Ty.fn Ex.nat Ex.nat)
+      (argsOf (.comb (.svar "F" (Ty.fn Ex.nat Ex.nat)) (.var "u" Ex.nat))) (.comb Ex.p (.var "u" Ex.nat))
+      = .ok ⟨[], [("F", Ex.p)], [], []⟩ :=
+  ⟨rfl, rfl, rfl⟩
 
 /-- First-order patterns whose schematic variables are used at their declared types `D`: if the
 seed is well-typed (every bound declared variable carries a term of its declared type under the
